@@ -291,7 +291,15 @@ fn hashes(content: &[u8], patch: bool) -> String {
         .iter()
         .map(|d: &Digest| {
             let mut c = Cursor::new(content.to_vec());
-            if patch { d.hash_patch(&mut c).unwrap() } else { d.hash_file(&mut c).unwrap() }
+            // never trust (or depend on) the implementation here: an error or a panic while hashing
+            // becomes the placeholder "err", which the oracle's reference digests expose
+            let r = std::panic::catch_unwind(std::panic::AssertUnwindSafe(|| {
+                if patch { d.hash_patch(&mut c) } else { d.hash_file(&mut c) }
+            }));
+            match r {
+                Ok(Ok(h)) => h,
+                _ => "err".to_string(),
+            }
         })
         .collect::<Vec<_>>()
         .join(",")
@@ -307,6 +315,11 @@ fn gen_c12(tier: &str, rng: &mut Rng, emit: &mut dyn FnMut(Op)) {
         b"$NetBSD: patch-aa,v 1.1 2024/01/01 00:00:00 x Exp $\n\n--- a\n+++ b\n@@\n-x\n+y\n".to_vec(),
         b"line1\nwith $NetBSD$ inside\nline3".to_vec(),
         vec![b'x'; 5000],
+        // patches as they arrive from other systems: CRLF line ends, Latin-1 bytes, an
+        // unterminated last line, a $NetBSD line with CRLF
+        b"--- a\r\n+++ b\r\n$NetBSD: patch-aa,v 1.2 $\r\n@@\r\n-x\r\n+y\r\n".to_vec(),
+        b"$NetBSD: x $\n--- caf\xe9.c\n+++ caf\xe9.c\n+\xff\xfe\n".to_vec(),
+        b"line one\nlast line without newline".to_vec(),
     ];
     let names: [&[u8]; 8] = [b"c.tgz", b"b/c.tgz", b"a/b/c.tgz", b"patch-aa", b"sub/patch-ab", b"emul-linux-patch-a", b"d.tgz", b"patch-2.0.tar.gz"];
     for _ in 0..(if thorough { 4000 } else { 350 }) {
